@@ -673,6 +673,12 @@ func init() {
 				}
 				emit(&c13Case{Part: "expr", Expr: e.expr, Shape: "literal-with-operator-text", Want: e.want})
 			}
+			// a registered function called inside an operator expression
+			for _, e := range []struct{ expr, want string }{
+				{"double(n) + 1", "int:11"}, {"double(n) > 5", "bool:true"}, {"shout(s) == 'STR!'", "bool:true"}, {"isbig(n) && t", "bool:true"}, {"isbig(n) ? 'big' : 'small'", "string:big"}, {"len(s) + 1", "int:4"},
+			} {
+				emit(&c13Case{Part: "expr", Expr: e.expr, Shape: "registered-function-in-operator-expression", Want: e.want})
+			}
 			// look-alike pairs on one engine
 			alike := []string{
 				`sp2 == 'a  b'`, `sp2 == 'a b'`, `sp1 == 'a b'`, `sp1 == 'a  b'`, `sp2 == "a  b"`, `sp2=='a  b'`, ` sp2 == 'a  b' `, `sp2  ==  'a  b'`,
